@@ -259,6 +259,8 @@ pub struct Case {
     pub input: Vec<u8>,
     /// the input contains at least one complete RESP request (so the proxy owes a reply or a close)
     pub complete: bool,
+    /// the case may install metadata: the baseline metadata is forced back afterwards
+    pub restore: bool,
 }
 
 const EXTREME: &[&[u8]] = &[
@@ -286,7 +288,7 @@ fn b(s: &str) -> Vec<u8> {
 /// byte-level hostile inputs (not produced by the RESP encoder)
 pub fn byte_cases() -> Vec<Case> {
     let mut v = vec![];
-    let mut add = |desc: &str, input: Vec<u8>, complete: bool| v.push(Case { family: "bytes".into(), desc: desc.to_string(), input, complete });
+    let mut add = |desc: &str, input: Vec<u8>, complete: bool| v.push(Case { family: "bytes".into(), desc: desc.to_string(), input, complete, restore: false });
     for n in ["1000", "100000", "16777216", "1073741824", "4294967296", "99999999999", "1152921504606846976", "9223372036854775807", "9223372036854775808", "18446744073709551615", "-2", "-9223372036854775808"] {
         add(&format!("array header *{} then nothing", n), format!("*{}\r\n", n).into_bytes(), false);
         add(&format!("array header *{} then one element", n), format!("*{}\r\n$4\r\nPING\r\n", n).into_bytes(), false);
@@ -350,7 +352,7 @@ pub fn cmd_cases(seed: u64, random_count: usize) -> Vec<Case> {
     let mut v = vec![];
     let mut add = |parts: Vec<Vec<u8>>| {
         let desc = parts.iter().map(|p| String::from_utf8_lossy(&p[..p.len().min(24)]).to_string()).collect::<Vec<_>>().join(" ");
-        v.push(Case { family: "cmd".into(), desc, input: enc(&parts), complete: true });
+        v.push(Case { family: "cmd".into(), desc, input: enc(&parts), complete: true, restore: false });
     };
     // every command x arity 0..3 with a fixed filler, then every (command, position, extreme value)
     for c in COMMANDS {
@@ -413,6 +415,42 @@ pub fn cmd_cases(seed: u64, random_count: usize) -> Vec<Case> {
         add(vec![b("CONFIG"), b("SET"), b("slowlog_log_slower_than"), x.to_vec()]);
         add(vec![b("CONFIG"), b("SET"), b("slowlog_sample_rate"), x.to_vec()]);
     }
+    // structured control-plane messages with extreme numbers INSIDE composite tokens (slot ranges, counts, addresses,
+    // migration tags); FORCE so that the epoch gate does not stop them before the metadata is processed
+    let mut vs: Vec<Case> = vec![];
+    let mut adds = |parts: Vec<Vec<u8>>| {
+        let desc = parts.iter().map(|p| String::from_utf8_lossy(&p[..p.len().min(24)]).to_string()).collect::<Vec<_>>().join(" ");
+        vs.push(Case { family: "cmd".into(), desc, input: enc(&parts), complete: true, restore: true });
+    };
+    let nums: Vec<&[u8]> = EXTREME.iter().cloned().filter(|x| !x.is_empty() && x.iter().all(|c| c.is_ascii_digit() || *c == b'-')).collect();
+    for x in nums.iter() {
+        let xs = String::from_utf8_lossy(x).to_string();
+        let ranges = [format!("0-{}", xs), format!("{}-{}", xs, xs), format!("{}-16383", xs), format!("{}-0", xs), format!("16383-{}", xs)];
+        let addrs = ["127.0.0.1:7001", "127.0.0.1:6000", "127.0.0.1:7002", "127.0.0.1:6001"];
+        for rg in ranges.iter() {
+            adds(vec![b("UMCTL"), b("SETCLUSTER"), b("v2"), b("9"), b("FORCE"), b("db"), b("127.0.0.1:7001"), b("1"), b(rg)]);
+            adds(vec![b("UMCTL"), b("SETCLUSTER"), b("v2"), b("9"), b("FORCE"), b("db"), b("127.0.0.1:7001"), b("1"), b("0-100"), b("PEER"), b("127.0.0.1:7002"), b("1"), b(rg)]);
+            for tag in ["MIGRATING", "IMPORTING"] {
+                let mut p = vec![b("UMCTL"), b("SETCLUSTER"), b("v2"), b("9"), b("FORCE"), b("db"), b("127.0.0.1:7001"), b(tag), b("1"), b(rg), b("5")];
+                p.extend(addrs.iter().map(|a| b(a)));
+                adds(p);
+            }
+            for sub in ["TMPSWITCH", "PRECHECK", "PRESWITCH", "FINALSWITCH"] {
+                let mut p = vec![b("UMCTL"), b(sub), b("mgr-0.2"), b("db"), b("MIGRATING"), b("1"), b(rg), b("5")];
+                p.extend(addrs.iter().map(|a| b(a)));
+                adds(p);
+            }
+        }
+        // counts and epochs inside otherwise well-formed messages
+        adds(vec![b("UMCTL"), b("SETCLUSTER"), b("v2"), b("9"), b("FORCE"), b("db"), b("127.0.0.1:7001"), x.to_vec(), b("0-100"), b("200-300")]);
+        adds(vec![b("UMCTL"), b("SETCLUSTER"), b("v2"), b("9"), b("FORCE"), b("db"), b("127.0.0.1:7001"), b("MIGRATING"), b("1"), b("0-100"), x.to_vec(),
+                  b("127.0.0.1:7001"), b("127.0.0.1:6000"), b("127.0.0.1:7002"), b("127.0.0.1:6001")]);
+        adds(vec![b("UMCTL"), b("SETCLUSTER"), b("v2"), b("9"), b("FORCE"), b("db"), b(&format!("127.0.0.1:{}", xs)), b("1"), b("0-100")]);
+        adds(vec![b("UMCTL"), b("SETCLUSTER"), b("v2"), b("9"), b("FORCE"), b("db"), b("127.0.0.1:7001"), b("1"), b("0-100"), b("CONFIG"), b("migration_scan_count"), x.to_vec()]);
+        adds(vec![b("UMCTL"), b("SETCLUSTER"), b("v2"), b("9"), b("FORCE"), b("db"), b("127.0.0.1:7001"), b("1"), b("0-100"), b("CONFIG"), b("migration_max_migration_time"), x.to_vec()]);
+        adds(vec![b("UMCTL"), b("SETREPL"), b("9"), b("FORCE"), b("master"), b("db"), b("127.0.0.1:6000"), x.to_vec(), b("127.0.0.1:6001"), b("127.0.0.1:7002")]);
+        adds(vec![b("UMCTL"), b("SETREPL"), b("9"), b("FORCE"), b("replica"), b("db"), b("127.0.0.1:6000"), x.to_vec(), b("127.0.0.1:6001"), b("127.0.0.1:7002")]);
+    }
     // random combinations
     let mut r = StdRng::seed_from_u64(seed);
     for _ in 0..random_count {
@@ -429,6 +467,7 @@ pub fn cmd_cases(seed: u64, random_count: usize) -> Vec<Case> {
         }
         add(parts);
     }
+    v.extend(vs);
     v
 }
 
@@ -479,6 +518,15 @@ pub fn run_many<W: Write>(w: &mut W, family: &str, seed: u64, random_count: usiz
         for c in &cases {
             idx += 1;
             let line = run_case(&mut proxy, c, phase, idx);
+            if c.restore && line["alive"].as_bool().unwrap_or(false) {
+                let base = if phase == "after_meta" {
+                    enc(&[b("UMCTL"), b("SETCLUSTER"), b("v2"), b("1"), b("FORCE"), b("c16"), b("127.0.0.1:9"), b("1"), b("0-16383")])
+                } else {
+                    enc(&[b("UMCTL"), b("SETCLUSTER"), b("v2"), b("1"), b("FORCE"), b("c16")])
+                };
+                let _ = exchange(proxy.port, &base, Duration::from_secs(5), Duration::from_millis(5));
+                let _ = exchange(proxy.port, &enc(&[b("UMCTL"), b("SETREPL"), b("1"), b("FORCE")]), Duration::from_secs(5), Duration::from_millis(5));
+            }
             let dead = !line["alive"].as_bool().unwrap_or(true);
             let wedged = line["probe"] != "reply";
             let _ = writeln!(w, "{}", line);
